@@ -1,4 +1,5 @@
 import Enc.Driver.Ascii
+import Enc.Driver.Proto
 /-!
 encdriver: reads `op<TAB>arg…` lines on stdin, answers `M<TAB>S<TAB>K` per line
 (model observable, spec observable, comma-separated Known classes), `bad-op` for what it cannot parse.
@@ -8,10 +9,11 @@ open Enc
 
 def dispatch (op : String) (args : List String) : Option (String × String × String) :=
   if op.startsWith "ascii." then Driver.Ascii.handle op args
+  else if op.startsWith "proto." then Driver.Proto.handle op args
   else none
 
 def step (line : String) : String :=
-  match (line.dropRightWhile (fun c => c == '\n' || c == '\r')).splitOn "\t" with
+  match (String.ofList (line.toList.filter (fun c => c != '\n' && c != '\r'))).splitOn "\t" with
   | op :: args =>
     match dispatch op args with
     | some (m, s, k) => m ++ "\t" ++ s ++ "\t" ++ k
